@@ -310,8 +310,10 @@ impl Property for C10 {
             }
         };
 
-        if within >= 11 * SHARDS * 3 {
-            let k = within - 11 * SHARDS * 3;
+        // the six special runs (fixtures, nesting / bombs, chains) come first: a batch cut short
+        // by its time budget still has them
+        if within < 6 {
+            let k = within;
             if k == 5 {
                 // a chain of manifests each naming the previous one as its parent, read on a
                 // thread with the default 2 MiB stack
@@ -518,6 +520,7 @@ impl Property for C10 {
             return out;
         }
 
+        let within = within - 6;
         let fi = within / (SHARDS * 3);
         let ek = (within / SHARDS) % 3;
         let shard = within % SHARDS;
